@@ -247,13 +247,14 @@ PROPS["C01"] = {
             "run; per emit: delivered to the handler registered for that name exactly once, to no other handler, with arguments equal to those passed; no connection closed. "
             "The header frame and attachment count of every packet each connection's decoder received (wire tap) are replayed through the Lean reassembly model. "
             "Non-trivial = every scenario / every tapped connection; distinct by description / request line.",
-    "trusted_base": EXT + ["go1.26.8 testing/synctest", "the composition of the carriage, queue, codec and dispatch theorems into the end-to-end statement is by the argument in Props/C01.lean's header, "
-                           "not one Lean term: the Go glue between the modelled pieces (socket.emit -> manager.packet -> eio.Send, onEIOPacket -> onPacket -> handler call) is exercised, not modelled"],
+    "trusted_base": EXT + ["go1.26.8 testing/synctest", "carriage and reassembly are composed in Lean (end_to_end_*); their composition with the queue (C02), header codec (C09) and dispatch (C05) theorems is by the "
+                           "argument in Props/C01.lean's header: the Go glue between the modelled pieces (socket.emit -> manager.packet -> eio.Send, onEIOPacket -> onPacket -> handler call) is exercised, not modelled"],
     "assumptions": ["equality of arguments is Go reflect.DeepEqual on the decoded handler parameters"],
     "partial": ["an event that arrives before the server application's connection handler has registered its handler is dropped (finding D40; provoked by 50 clients connecting at once, each emitting from OnConnect)",
                 "values sent as `any` holding []byte and a binary value shared between two arguments are recorded findings of C09 (D33, D17)",
                 "packets restored after session recovery are C08's (findings D17b, D18)"],
-    "level_text": "Lean 4 theorems for the carriage and the reassembly, for every input: each frame put on a WebSocket decodes to itself; for every partition of the frame stream "
+    "level_text": "Lean 4 theorems for the carriage, the reassembly and their composition (end_to_end_polling, end_to_end_websocket: the sender's blocks, cut into long-polling payloads in any way "
+                  "or sent as WebSocket messages, are decoded and reassembled into exactly one packet per block, in order, leaving the decoder idle), for every input: each frame put on a WebSocket decodes to itself; for every partition of the frame stream "
                   "into non-empty long-polling payloads each payload decodes to exactly the frames put into it (attachments as base64), and the concatenation is the stream "
                   "sent; Engine.IO control packets interleaved anywhere never reach the Socket.IO decoder; a stream made of well-formed blocks (header frame + the attachments "
                   "it announces) yields exactly one finished packet per block, in order, and leaves the decoder idle. Together with C02 (blocks are contiguous and in order on the "
